@@ -49,6 +49,7 @@ func stubGetCertificate(subject string, dnsNames []string, ips []net.IP, lifespa
 	}
 	return c, nil
 }
+
 // any certificate generated during this run has a different key than the cached one
 func stubGenerateC05(subject string, dnsNames []string, ips []net.IP, lifespan time.Duration) ([]byte, []byte, tls.Certificate, error) {
 	genC05++
